@@ -206,8 +206,16 @@ def reapSinks (s : BSt) (sids : List Nat) : BSt :=
     if (s.sinkOf sid).alive && sinkRefs s sid = 0 then (s.setSink sid (fun k => { k with alive := false })).emit (.sinkDtor sid)
     else s) s
 
+/-- the sinks released by a logger that `_cleanup_invalidated_loggers` erases: like `reapSinks`, and the frontend keeps
+    running while a sink destructor runs (site 9; the `LoggerManager` lock is held, see `runInj`) -/
+def reapSinksInj (inj : BSt → Nat → BSt) (s : BSt) (sids : List Nat) : BSt :=
+  sids.foldl (fun s sid =>
+    if (s.sinkOf sid).alive && sinkRefs s sid = 0 then
+      inj ((s.setSink sid (fun k => { k with alive := false })).emit (.sinkDtor sid)) 9
+    else s) s
+
 /-- `_cleanup_invalidated_loggers`: erase invalid loggers while everything is empty; raise removal flags -/
-def cleanupLoggers (s : BSt) : BSt :=
+def cleanupLoggers (inj : BSt → Nat → BSt) (s : BSt) : BSt :=
   if !s.hasInvalidLoggers then s else
   let s0 := { s with hasInvalidLoggers := false }
   let order := insSorted (fun a b => decide ((s0.lgOf a).gid ≤ (s0.lgOf b).gid))
@@ -218,7 +226,7 @@ def cleanupLoggers (s : BSt) : BSt :=
     let r := allEmpty s
     if r.2 then
       let s1 := r.1.setLg i (fun l => { l with erased := true })
-      (reapSinks s1 (s.lgOf i).sinks, acc.2 ++ [(s.lgOf i).gid])
+      (reapSinksInj inj s1 (s.lgOf i).sinks, acc.2 ++ [(s.lgOf i).gid])
     else ({ r.1 with hasInvalidLoggers := true }, acc.2)
   let (s1, removed) := order.foldl step (s0, [])
   removed.foldl (fun s gid =>
@@ -359,7 +367,7 @@ def poll (inj : BSt → Nat → BSt) (s : BSt) : BSt :=
     let s2 := inj s1 5
     let s3 := checkFailures inj (flushSinks s2)
     let r := allEmpty s3
-    if r.2 then cleanupLoggers (cleanupContexts r.1) else r.1
+    if r.2 then cleanupLoggers inj (cleanupContexts r.1) else r.1
 
 /-- `_exit` with `wait_for_queues_to_empty_before_exit`: the clock advances by `tick` at every sampling -/
 def exitLoop (inj : BSt → Nat → BSt) (tick : Nat) : Nat → BSt → BSt
@@ -368,7 +376,7 @@ def exitLoop (inj : BSt → Nat → BSt) (tick : Nat) : Nat → BSt → BSt
     let r := allEmpty s
     if r.2 then
       let s1 := flushSinks (checkFailures inj r.1)
-      cleanupLoggers (cleanupContexts s1)
+      cleanupLoggers inj (cleanupContexts s1)
     else
       let s0 := { r.1 with now := r.1.now + tick }
       let (s1, count) := populate inj s0
